@@ -96,7 +96,7 @@ def pr(a, st=None, parent=0, side=None):
         p = PREC[k]
         out = pr(a[1], st, p - 1, "l") + " " + st.kw(k) + " " + pr(a[2], st, p, "r")
     elif k == "not":
-        out = st.kw("NOT") + s + "(" + pr(a[1], st, 0) + ")"
+        out = st.kw("NOT") + "(" + pr(a[1], st, 0) + ")"      # the grammar wants NOT( without a blank
     elif k == "if":
         out = st.kw("IF") + " " + pr(a[1], st, 0) + " " + st.kw("THEN") + " " + pr(a[2], st, 0) + " " + st.kw("ELSE") + " " + pr(a[3], st, 0)
     elif k == "fn":
@@ -105,6 +105,9 @@ def pr(a, st=None, parent=0, side=None):
               "step": "STEP", "ramp": "RAMP"}.get(a[1], a[1].upper())
         args = [pr(z, st, 0) if isinstance(z, list) else str(z) for z in a[2:]]
         out = st.kw(nm) + "(" + ("," + s).join(args) + ")"
+    elif k == "call":
+        args = [pr(z, st, 0) if isinstance(z, list) else str(z) for z in a[2:]]
+        out = st.kw(a[1]) + "(" + ("," + s).join(args) + ")"
     elif k == "raw":
         return a[1]
     else:
@@ -113,7 +116,8 @@ def pr(a, st=None, parent=0, side=None):
     if k == "neg" or (k == "num" and a[1] < 0):
         # a unary minus may only start an expression or follow "(" in this grammar
         need = need or side == "r" or parent >= PREC["*"]
-    if need or (st.redundant and st.rng.random() < st.redundant and k not in ("num", "ref")):
+    # redundant parentheses only around arithmetic: the grammar has no parenthesised boolean groups
+    if need or (st.redundant and st.rng.random() < st.redundant and k in ("bin", "neg", "call", "fn", "if", "time")):
         out = "(" + s + out + s + ")"
     return out
 
